@@ -68,6 +68,7 @@ func workPar(tier string, seed uint64, worker int, budget float64, maxRuns int, 
 		o.Extra["preemptions_inside_locksafe"] += res.Stats.InLock
 		o.Extra["preemptions_inside_hint_refresh"] += res.Stats.SharedSwitch
 		o.Extra["queries_rejected_at_the_limit_of_64"] += res.Stats.Rejected
+		o.Extra["queries_rejected_for_a_removed_relation_target"] += res.Stats.DeadTarget
 		o.Extra["trylock_waits"] += res.Stats.TryFails
 		o.Extra["queries_run"] += res.Stats.Queries
 		o.Extra["shared_filter_first_use"] += res.Stats.SharedFirstUse
